@@ -7,9 +7,11 @@ set -u
 name=$1; mut=$2; shift 2
 out=/verif/seeded/$name
 mkdir -p $out
-cp $mut/patch.diff $out/patch.diff
-for f in $mut/*_test.go $mut/*.go $mut/notes.md; do [ -f "$f" ] && cp "$f" $out/; done
+[ "$(readlink -f $mut)" != "$(readlink -f $out)" ] && cp $mut/patch.diff $out/patch.diff
+if [ "$(readlink -f $mut)" != "$(readlink -f $out)" ]; then for f in $mut/*_test.go $mut/*.go $mut/notes.md; do [ -f "$f" ] && cp "$f" $out/; done; fi
 export GOFLAGS=-mod=mod GOPROXY=off
+exec 8>/verif/.repolock && flock -x 8   # no check may (re)build from /repo while the change is applied
+export VERIF_NOLOCK=1
 cd /repo
 if ! git diff --quiet; then echo "/repo has uncommitted changes"; exit 2; fi
 git apply --check $out/patch.diff || { echo "patch does not apply"; exit 2; }
